@@ -351,8 +351,12 @@ def validate_encoding(rep):
         N = 4
         r1 = rng.rand(N) * 10
         r2 = rng.rand(N) * 12
-        with contextlib.redirect_stdout(io.StringIO()):
-            ref = pm.Parameters().get_second_round_kcals_with_redistributed_meat(r1.copy(), r2.copy(), None, None)
+        try:
+            with contextlib.redirect_stdout(io.StringIO()):
+                ref = pm.Parameters().get_second_round_kcals_with_redistributed_meat(r1.copy(), r2.copy(), None, None)
+        except AssertionError:
+            # the real code refuses this pair: not an encoding question (the symbolic groups decide whether it may refuse); skip the sample
+            continue
         E = Engine()
         got = []
 
@@ -377,7 +381,10 @@ def validate_encoding(rep):
 def main(tier, seed, only=None):
     rep = vlib.Report(PID, tier, seed)
     thorough = tier == "thorough"
-    validate_encoding(rep)
+    try:
+        validate_encoding(rep)
+    except Exception as e:   # noqa  the real code raised on a concrete validation sample: the symbolic groups still run and decide; without a violation the run is inconclusive
+        rep.fail_inconclusive("concrete validation of the encoding could not run: %s: %s" % (type(e).__name__, str(e)[:200]))
     groups = []
     groups.append(("bump", "worker_bump", [dict(L=1, pre="within_demand"), dict(L=1, pre="any"), dict(L=2, pre="within_demand")] + ([dict(L=3, pre="within_demand")] if thorough else []), replay_bump,
                    ["Parameters.increase_biofuels_then_feed"],
